@@ -21,8 +21,9 @@ import (
 // oracle and bounds. Sessions are named by establishment index (see Base.EstUP).
 
 type ruleMenu struct {
-	name string
-	ops  []smf.RuleOp
+	name  string
+	ops   []smf.RuleOp
+	noRpt bool // environment answer: the data plane removes the URR without returning a final report
 }
 
 func op(verb, kind byte, id uint32) smf.RuleOp { return smf.RuleOp{Verb: verb, Kind: kind, ID: id, MInfo: -1} }
@@ -32,9 +33,9 @@ func pdr(verb byte, id uint32, far uint32, urrs ...uint32) smf.RuleOp {
 
 // establishment rule sets
 var estMenus = []ruleMenu{
-	{"F1 U1 P1", []smf.RuleOp{op('C', 'F', 1), op('C', 'U', 1), pdr('C', 1, 1, 1)}},
+	{"F1 U1 P1", []smf.RuleOp{op('C', 'F', 1), op('C', 'U', 1), pdr('C', 1, 1, 1)}, false},
 	{"F1 Q1 U1 U2 B1 P1 P2", []smf.RuleOp{op('C', 'F', 1), op('C', 'Q', 1), op('C', 'U', 1), op('C', 'U', 2), op('C', 'B', 1),
-		smf.RuleOp{Verb: 'C', Kind: 'P', ID: 1, FAR: 1, QERs: []uint32{1}, URRs: []uint32{1}, MInfo: -1}, pdr('C', 2, 1, 1, 2)}},
+		smf.RuleOp{Verb: 'C', Kind: 'P', ID: 1, FAR: 1, QERs: []uint32{1}, URRs: []uint32{1}, MInfo: -1}, pdr('C', 2, 1, 1, 2)}, false},
 }
 
 // single-IE modification deltas: every verb x kind, for an id of the establishment set (1), a second id (2)
@@ -42,7 +43,7 @@ var estMenus = []ruleMenu{
 func modMenus(tier string) []ruleMenu {
 	var out []ruleMenu
 	add := func(o smf.RuleOp) {
-		out = append(out, ruleMenu{fmt.Sprintf("%c%c%d", o.Verb, o.Kind, o.ID), []smf.RuleOp{o}})
+		out = append(out, ruleMenu{fmt.Sprintf("%c%c%d", o.Verb, o.Kind, o.ID), []smf.RuleOp{o}, false})
 	}
 	ids := []uint32{1, 9}
 	if tier == "thorough" {
@@ -65,6 +66,7 @@ func modMenus(tier string) []ruleMenu {
 	for _, id := range ids {
 		add(op('Q', 'U', id))
 	}
+	out = append(out, ruleMenu{"RU1(no final report)", []smf.RuleOp{op('R', 'U', 1)}, true})
 	return out
 }
 
@@ -473,7 +475,9 @@ func (r *rules) Apply(e seqx.Event) seqx.StepResult {
 		ops := r.mods[m].ops
 		what = "Mod[" + r.mods[m].name + "]"
 		touched[up] = true
+		r.W.D.NoRmRpt = r.mods[m].noRpt
 		o = r.W.Send(s.Peer, smf.Mod(r.NextSeq(s.Peer), up, "", ops...))
+		r.W.D.NoRmRpt = false
 		if j.Crashed(r.W, o) {
 			break
 		}
